@@ -256,10 +256,30 @@ def live_modules(mods, entry='t4_geom_convert.main'):
 class Summary:
     def __init__(self):
         self.set_funcs = {}     # function/method name -> element kind
+        self.set_meths = {}     # the same for functions defined in a class
         self.set_attrs = {}     # attribute name -> element kind
         self.set_params = {}    # (function name, param name) -> kind
         self.func_params = {}   # function name -> [list of param-name lists]
+        # function name -> (arity, {position: kind}) for functions returning a
+        # tuple display some components of which are sets; arity None = the
+        # returns disagree (not tracked: fail-closed)
+        self.tuple_funcs = {}
         self.changed = False
+
+    def note_tuple(self, name, arity, pos):
+        old = self.tuple_funcs.get(name)
+        if old is None:
+            new = (arity, dict(pos))
+        elif old[0] is None or old[0] != arity:
+            new = (None, {})
+        else:
+            merged = dict(old[1])
+            for j, kind in pos.items():
+                merged[j] = kjoin(merged.get(j, 'KEmpty'), kind)
+            new = (arity, merged)
+        if new != old:
+            self.tuple_funcs[name] = new
+            self.changed = True
 
     def note(self, table, key, kind):
         old = table.get(key)
@@ -326,6 +346,7 @@ class FileAudit:
         self.imported = set()
         self.class_names = set()
         self.emit_enabled = False
+        self.handled_calls = set()
 
     # ---- helpers ----
     def emit(self, func, node_or_text, construct, live=None):
@@ -605,9 +626,18 @@ class FileAudit:
                         for arg in node.args:
                             kind = kjoin(kind, self.iter_elem_kind(info, arg))
                     return kind
-            if name in self.summary.set_funcs:
-                return self.summary.set_funcs[name]
-            return None
+            # plain call f(...): a module-level function; self.f(...) / cls.f(...):
+            # a method; anything else (module.f, obj.f): either
+            plain = self.summary.set_funcs.get(name)
+            meth = self.summary.set_meths.get(name)
+            if recv is None:
+                return plain
+            if isinstance(recv, ast.Name) and recv.id in (info.self_name,
+                                                          info.cls_name):
+                return meth
+            if plain is None or meth is None:
+                return plain if meth is None else meth
+            return kjoin(plain, meth)
         if isinstance(node, ast.BinOp) and isinstance(
                 node.op, (ast.BitOr, ast.BitAnd, ast.Sub, ast.BitXor)):
             a = self.set_kind(info, node.left)
@@ -753,6 +783,13 @@ class FileAudit:
                     self.store(tgt, info, func, live, stmt)
                     continue
                 vclass = self.value_class(value)
+                if vclass != 'VImmutable' and isinstance(stmt, ast.Assign) \
+                        and names and names <= getattr(self, 'frozen', set()) \
+                        and table_kind(value) is not None:
+                    # a literal table of immutable entries that the whole
+                    # package only reads (frozen_tables)
+                    vclass = 'VImmutable'
+                    self.count('frozen-table')
                 if isinstance(stmt, ast.AugAssign):
                     vclass = 'VUnknown' if vclass != 'VImmutable' \
                         else 'VImmutable'
@@ -766,7 +803,28 @@ class FileAudit:
                 self.visit_expr(value, info, func, live)
             return
         # ordinary statements
+        if isinstance(stmt, ast.Assign) and len(stmt.targets) == 1 \
+                and isinstance(stmt.targets[0], (ast.Tuple, ast.List)) \
+                and isinstance(stmt.value, (ast.Tuple, ast.List)) \
+                and len(stmt.targets[0].elts) == len(stmt.value.elts) \
+                and not any(isinstance(e, ast.Starred)
+                            for e in stmt.targets[0].elts + stmt.value.elts):
+            # a, b = x, y : the displays are never seen as objects; element
+            # by element (Python evaluates the right-hand sides first, which
+            # the flow-insensitive tracking does not distinguish)
+            for tgt, val in zip(stmt.targets[0].elts, stmt.value.elts):
+                fake = ast.Assign(targets=[tgt], value=val)
+                ast.copy_location(fake, stmt)
+                self.store(tgt, info, func, live, fake)
+                self.note_set_assign(info, tgt, val)
+                kind = self.set_kind(info, val)
+                if kind is not None and isinstance(tgt, ast.Name):
+                    info.set_locals[tgt.id] = kjoin(
+                        info.set_locals.get(tgt.id, 'KEmpty'), kind)
+                self.visit_expr(val, info, func, live)
+            return
         if isinstance(stmt, ast.Assign):
+            self.unpack_tuple_call(info, stmt)
             for tgt in stmt.targets:
                 self.store(tgt, info, func, live, stmt)
                 self.note_set_assign(info, tgt, stmt.value)
@@ -799,6 +857,8 @@ class FileAudit:
             return
         if isinstance(stmt, ast.Return):
             if stmt.value is not None:
+                if self.tuple_return(info, stmt.value, func, live):
+                    return
                 self.flow_out(stmt.value, info, func, live, 'return')
                 self.visit_expr(stmt.value, info, func, live)
             return
@@ -889,9 +949,16 @@ class FileAudit:
         # set-valued locals and aliases of globals (flow-insensitive)
         for _ in range(3):
             for sub in nodes:
+                if isinstance(sub, ast.Assign):
+                    self.unpack_tuple_call(info, sub)
                 pairs = []
                 if isinstance(sub, ast.Assign):
                     pairs = [(t, sub.value) for t in sub.targets]
+                    if len(sub.targets) == 1 and isinstance(
+                            sub.targets[0], (ast.Tuple, ast.List)) \
+                            and isinstance(sub.value, (ast.Tuple, ast.List)) \
+                            and len(sub.targets[0].elts) == len(sub.value.elts):
+                        pairs = list(zip(sub.targets[0].elts, sub.value.elts))
                 elif isinstance(sub, ast.AnnAssign) and sub.value is not None:
                     pairs = [(sub.target, sub.value)]
                 elif isinstance(sub, ast.AugAssign):
@@ -1106,11 +1173,85 @@ class FileAudit:
             return True
         return False
 
+    # ---- tuples of sets crossing a function boundary ----
+    def tuple_shape(self, info, value):
+        '''(arity, {position: kind}) when `value` is a tuple display (no
+        starred element, no set nested deeper) with at least one set-valued
+        component, or a call of a function already known to return one.'''
+        if isinstance(value, ast.Tuple) and value.elts:
+            if any(isinstance(e, ast.Starred) for e in value.elts):
+                return None
+            pos = {}
+            for j, elt in enumerate(value.elts):
+                kind = self.set_kind(info, elt)
+                if kind is not None:
+                    pos[j] = kind
+                elif isinstance(elt, (ast.Tuple, ast.List, ast.Dict, ast.Set)) \
+                        and any(self.set_kind(info, y) is not None
+                                for y in ast.walk(elt)
+                                if isinstance(y, ast.expr) and y is not elt):
+                    return None
+            return (len(value.elts), pos) if pos else None
+        if isinstance(value, ast.Call):
+            name, _ = call_name(value.func)
+            shape = self.summary.tuple_funcs.get(name)
+            if shape is not None and shape[0] is not None:
+                return shape
+        return None
+
+    def tuple_return(self, info, value, func, live):
+        '''``return a, b, c`` with set-valued components (or ``return f(...)``
+        with f such a function): the function is summarised by (arity,
+        positions of the sets); callers must unpack the result into names of
+        the same arity, which then become set-valued (unpack_tuple_call) — any
+        other use of the call is reported at the call site.  Returns True when
+        the return has been dealt with.'''
+        shape = self.tuple_shape(info, value)
+        if shape is None:
+            return False
+        fname = info.name.rpartition('.')[2]
+        self.summary.note_tuple(fname, shape[0], shape[1])
+        if self.summary.tuple_funcs[fname][0] is None:
+            return False        # the returns disagree: old fail-closed path
+        if isinstance(value, ast.Tuple):
+            for elt in value.elts:
+                self.visit_expr(elt, info, func, live)
+        else:
+            self.handled_calls.add(id(value))
+            self.visit_expr(value, info, func, live)
+        return True
+
+    def unpack_tuple_call(self, info, stmt):
+        '''``x, y, z = f(...)`` with f summarised by tuple_return: the names at
+        the set positions become set-valued locals.'''
+        value = stmt.value
+        if not isinstance(value, ast.Call) or len(stmt.targets) != 1:
+            return False
+        name, _ = call_name(value.func)
+        shape = self.summary.tuple_funcs.get(name)
+        target = stmt.targets[0]
+        if shape is None or shape[0] is None \
+                or not isinstance(target, (ast.Tuple, ast.List)) \
+                or len(target.elts) != shape[0] \
+                or any(isinstance(e, ast.Starred) for e in target.elts):
+            return False
+        for j in shape[1]:
+            if not isinstance(target.elts[j], ast.Name) \
+                    or target.elts[j].id in info.globals_decl:
+                return False
+        for j, kind in shape[1].items():
+            tgt = target.elts[j].id
+            info.set_locals[tgt] = kjoin(info.set_locals.get(tgt, 'KEmpty'),
+                                         kind)
+        self.handled_calls.add(id(value))
+        return True
+
     def flow_out(self, value, info, func, live, how):
         '''A value leaves the function (return / yield).'''
         kind = self.set_kind(info, value)
         if kind is not None and how == 'return':
-            self.summary.note(self.summary.set_funcs,
+            self.summary.note(self.summary.set_meths if info.cls is not None
+                              else self.summary.set_funcs,
                               info.name.rpartition('.')[2], kind)
             return
         if isinstance(value, ast.Tuple):
@@ -1419,6 +1560,22 @@ class FileAudit:
             self.emit(func, f'set {text_of(k.value, 60)} passed to '
                       f'{dotted}({k.arg}=...)', 'CSetEscape', live)
 
+        # --- the set constructor handed over as a factory (defaultdict(set),
+        #     setdefault(k, set) ...): sets the translator never sees ---
+        for sub in argl:
+            if isinstance(sub, ast.Name) and sub.id in ('set', 'frozenset') \
+                    and self.is_global_name(info, sub.id):
+                self.emit(func, f'set factory passed to {dotted}(...)',
+                          'CSetEscape', live)
+
+        # --- a tuple holding sets, returned by a package function, must be
+        #     unpacked by its caller (or returned on) ---
+        shape = self.summary.tuple_funcs.get(name)
+        if shape is not None and shape[0] is not None \
+                and id(node) not in self.handled_calls:
+            self.emit(func, f'tuple with sets returned by {name}(...) is not '
+                      'unpacked into names', 'CSetEscape', live)
+
         # --- iteration hidden in the call on a set receiver ---
         if recv_is_set and name not in SET_METHODS_OK and name != 'pop':
             self.emit(func, text_of(node), 'CSetEscape', live)
@@ -1438,6 +1595,171 @@ class FileAudit:
 # --------------------------------------------------------------------------
 # driver
 # --------------------------------------------------------------------------
+
+# --------------------------------------------------------------------------
+# read-only literal tables
+# --------------------------------------------------------------------------
+READ_CALLS = {'len', 'sorted', 'list', 'tuple', 'dict', 'set', 'frozenset',
+              'enumerate', 'reversed', 'min', 'max', 'any', 'all', 'bool',
+              'isinstance', 'sum', 'zip', 'iter', 'map', 'filter'}
+READ_METHODS = {'get', 'items', 'keys', 'values', 'index', 'count', 'copy',
+                '__contains__', '__getitem__'}
+
+
+def _imm(node):
+    '''An expression whose value cannot be mutated through the table:
+    constants, names of functions / classes / enum members, tuples of those.'''
+    if isinstance(node, (ast.Constant, ast.Lambda)):
+        return True
+    if isinstance(node, ast.Name):
+        return True
+    if isinstance(node, ast.Attribute):
+        return _imm(node.value)
+    if isinstance(node, ast.Tuple):
+        return all(_imm(e) for e in node.elts)
+    if isinstance(node, ast.UnaryOp):
+        return _imm(node.operand)
+    return False
+
+
+def table_kind(node):
+    ''''dict' / 'seq' / 'set' / 'trans' when `node` is a literal table of
+    immutable entries, else None.'''
+    if isinstance(node, (ast.Dict, ast.List, ast.Set)) \
+            and not (node.keys if isinstance(node, ast.Dict) else node.elts):
+        return None         # an empty literal is there to be filled
+    if isinstance(node, ast.Dict):
+        for key, val in zip(node.keys, node.values):
+            if key is None:
+                inner = table_kind(val)
+                fromkeys = (isinstance(val, ast.Call)
+                            and isinstance(val.func, ast.Attribute)
+                            and val.func.attr == 'fromkeys'
+                            and isinstance(val.func.value, ast.Name)
+                            and val.func.value.id == 'dict'
+                            and 1 <= len(val.args) <= 2
+                            and all(_imm(a) for a in val.args)
+                            and not val.keywords)
+                if inner != 'dict' and not fromkeys:
+                    return None
+            elif not (_imm(key) and _imm(val)):
+                return None
+        return 'dict'
+    if isinstance(node, ast.List):
+        return 'seq' if all(_imm(e) for e in node.elts) else None
+    if isinstance(node, ast.Set):
+        return 'set' if all(_imm(e) for e in node.elts) else None
+    if isinstance(node, ast.Call) and isinstance(node.func, ast.Attribute) \
+            and node.func.attr == 'maketrans' \
+            and isinstance(node.func.value, ast.Name) \
+            and node.func.value.id == 'str' \
+            and all(isinstance(a, ast.Constant) for a in node.args) \
+            and not node.keywords:
+        return 'trans'
+    if isinstance(node, ast.Call) and isinstance(node.func, ast.Name) \
+            and node.func.id == 'frozenset' and len(node.args) == 1 \
+            and table_kind(node.args[0]) in ('set', 'seq'):
+        return 'set'
+    return None
+
+
+def frozen_tables(trees):
+    '''Names bound ONCE, at module or class level, to a literal table of
+    immutable entries, such that EVERY other occurrence of the name in the
+    package (as a bare name or as an attribute `x.NAME`) is a read: subscript
+    load, `in`, len/sorted/list/..., .get/.items/.keys/.values/..., the
+    iterable of a loop, */** unpacking, the argument of .translate().  A table
+    that is passed to any other callee, aliased, returned, stored, deleted,
+    rebound, declared global, or (for a set) iterated is NOT in the result and
+    keeps its VMutable / VUnknown class.  Name-based across the package, hence
+    conservative: any other use of the same identifier anywhere disqualifies.'''
+    cands = {}      # name -> kind ; None once disqualified
+    for tree in trees:
+        scopes = [tree] + [n for n in ast.walk(tree)
+                           if isinstance(n, ast.ClassDef)]
+        for scope in scopes:
+            for stmt in scope.body:
+                if isinstance(stmt, ast.Assign) and len(stmt.targets) == 1 \
+                        and isinstance(stmt.targets[0], ast.Name):
+                    kind = table_kind(stmt.value)
+                    name = stmt.targets[0].id
+                    if kind is not None:
+                        cands[name] = kind if name not in cands else None
+    if not cands:
+        return set()
+    for tree in trees:
+        parent = {}
+        for node in ast.walk(tree):
+            for child in ast.iter_child_nodes(node):
+                parent[child] = node
+        for node in ast.walk(tree):
+            if isinstance(node, (ast.Global, ast.Nonlocal)):
+                for name in node.names:
+                    if name in cands:
+                        cands[name] = None
+                continue
+            if isinstance(node, ast.arg) and node.arg in cands:
+                cands[node.arg] = None      # a parameter of the same name
+                continue
+            if isinstance(node, ast.Name):
+                name = node.id
+            elif isinstance(node, ast.Attribute):
+                name = node.attr
+            else:
+                continue
+            if cands.get(name) is None:
+                continue
+            kind = cands[name]
+            par = parent.get(node)
+            if isinstance(node.ctx, (ast.Store, ast.Del)):
+                # the defining assignment itself (module / class level)
+                gp = parent.get(par)
+                if isinstance(node, ast.Name) and isinstance(par, ast.Assign) \
+                        and isinstance(gp, (ast.Module, ast.ClassDef)) \
+                        and table_kind(par.value) is not None:
+                    continue
+                cands[name] = None
+                continue
+            ok = False
+            if isinstance(par, ast.Attribute) and par.value is node:
+                # x.NAME where NAME is the table: `node` is the inner value of
+                # an attribute access on something else — not a use of a table
+                # called `name`... unless node itself is the table reference
+                gp = parent.get(par)
+                ok = par.attr in READ_METHODS and isinstance(gp, ast.Call) \
+                    and gp.func is par and kind != 'set'
+                if kind == 'set':
+                    ok = False
+            elif isinstance(par, ast.Subscript) and par.value is node \
+                    and isinstance(par.ctx, ast.Load):
+                ok = kind in ('dict', 'seq')
+            elif isinstance(par, ast.Compare) and node in par.comparators \
+                    and all(isinstance(o, (ast.In, ast.NotIn))
+                            for o in par.ops):
+                ok = True
+            elif isinstance(par, ast.Call) and node in par.args:
+                if isinstance(par.func, ast.Name) \
+                        and par.func.id in READ_CALLS:
+                    ok = kind != 'set' or par.func.id in ('len', 'sorted',
+                                                          'bool', 'frozenset',
+                                                          'set')
+                elif isinstance(par.func, ast.Attribute) \
+                        and par.func.attr == 'translate' and kind == 'trans':
+                    ok = True
+            elif isinstance(par, (ast.For, ast.comprehension)) \
+                    and par.iter is node:
+                ok = kind in ('dict', 'seq')
+            elif isinstance(par, ast.Starred):
+                ok = kind == 'seq'
+            elif isinstance(par, ast.Dict) and node in par.values \
+                    and par.keys[par.values.index(node)] is None:
+                ok = kind == 'dict'
+            elif isinstance(par, ast.keyword) and par.arg is None:
+                ok = kind == 'dict'         # f(**TABLE): a copy is passed
+            if not ok:
+                cands[name] = None
+    return {name for name, kind in cands.items() if kind is not None}
+
 
 def source_files(repo):
     repo = Path(repo)
@@ -1487,9 +1809,12 @@ def audit(repo):
     summary = Summary()
     for tree in trees.values():
         collect_func_params(tree, summary.func_params)
+    frozen = frozen_tables(list(trees.values()))
     audits = [FileAudit(repo, path, tree,
                         module_name(repo, path) in live, summary)
               for path, tree in trees.items()]
+    for fa in audits:
+        fa.frozen = frozen
     # fixpoint of the name-based summaries
     for _ in range(8):
         summary.changed = False
@@ -1518,6 +1843,7 @@ def audit(repo):
     info = {'files': len(trees), 'live_files': sum(
         1 for p in trees if module_name(repo, p) in live),
             'set_funcs': dict(summary.set_funcs),
+            'frozen_tables': sorted(frozen),
             'set_attrs': dict(summary.set_attrs),
             'set_params': {f'{k[0]}:{k[1]}': v
                            for k, v in summary.set_params.items()},
